@@ -22,7 +22,8 @@ for it in items:
         env = dict(os.environ, VERIF_REPO=WT, VERIF_EVIDENCE_DIR='/tmp/seed_evidence', VERIF_REPLAY_DIR='/tmp/seed_replays')
         rc, o = sh(f'/verif/check {pid} --tier quick', env=env)
         lines = [l[:300] for l in o.splitlines() if re.match(r'VIOLATION|UNDECIDED|KNOWN|  failed obligation', l)][:4]
-        meta['detection'] = dict(detected=(rc == 1), rc=rc, lines=lines, repo_head=subprocess.run('git -C /repo rev-parse --short HEAD', shell=True, capture_output=True, text=True).stdout.strip(),
+        failed = sorted({m.group(1) for m in re.finditer(r'^  failed obligation: (\S+)', o, re.M)})[:20]
+        meta['detection'] = dict(detected=(rc == 1), rc=rc, lines=lines, failed_obligations=failed, repo_head=subprocess.run('git -C /repo rev-parse --short HEAD', shell=True, capture_output=True, text=True).stdout.strip(),
                                  how='tools/seedcheck.py: patch applied in a scratch worktree, ./check <property> --tier quick with VERIF_REPO pointing at it')
     json.dump(meta, open(mp, 'w'), indent=1)
     print(it, 'DETECTED' if meta['detection'].get('detected') else ('ERROR' if meta['detection'].get('error') else 'missed'), flush=True)
